@@ -287,7 +287,7 @@ func visitInstr(fr *frame, instr ssa.Instruction) continuation {
 		fr.set(instr, fr.get(instr.Tuple).(tuple)[instr.Index])
 
 	case *ssa.Slice:
-		fr.set(instr, slice(fr.get(instr.X), fr.get(instr.Low), fr.get(instr.High), fr.get(instr.Max)))
+		fr.set(instr, slice(fr.get(instr.X), fr.get(instr.Low), fr.get(instr.High), fr.get(instr.Max), instr))
 
 	case *ssa.Return:
 		switch len(instr.Results) {
@@ -430,17 +430,17 @@ func visitInstr(fr *frame, instr ssa.Instruction) continuation {
 			panic(fmt.Sprintf("unexpected x type in IndexAddr: %T", x))
 		}
 		if isSym(idx) {
-			if !inRange(idx, 0, int64(len(elems))-1) {
+			if !inRangeT(idx, 0, int64(len(elems))-1, instr.Index.Type()) {
 				panic(symRuntimeError{fmt.Sprintf("index out of range [sym] with length %d", len(elems))})
 			}
 			if isScalarType(et) && len(elems) <= 4096 {
 				if len(elems) == 1 {
 					fr.set(instr, &elems[0])
 				} else {
-					fr.set(instr, symptr{elems, idxTerm(idx)})
+					fr.set(instr, symptr{elems, idxTermT(idx, instr.Index.Type())})
 				}
 			} else {
-				fr.set(instr, &elems[concInt(idx, "index")])
+				fr.set(instr, &elems[concIntT(idx, instr.Index.Type(), "index")])
 			}
 		} else {
 			fr.set(instr, &elems[asInt64(idx)])
